@@ -57,6 +57,23 @@ enum Ev {
     P,
     /// `poll_next` answers an error
     E,
+    /// the handler is idle: `poll_next` answers Pending and is only woken when the (virtual) clock
+    /// reaches `PARK_SECS` -- i.e. after every other task of the scenario has nothing left to do.
+    /// For the model this is a `Pending` followed by a wake-up (`BP`).
+    W,
+}
+
+/// virtual time at which a parked body (`Ev::W`) goes on
+const PARK_SECS: u64 = 200;
+/// a stream that never parks must be complete by this virtual time (the release pattern "delay"
+/// sleeps 5 ms per DATA frame; nothing else in a scenario waits on the clock)
+const STALL_SECS: u64 = 100;
+
+thread_local! {
+    static T0: std::cell::Cell<Option<tokio::time::Instant>> = const { std::cell::Cell::new(None) };
+}
+fn virtual_now_ms() -> u64 {
+    T0.with(|t| t.get()).map_or(0, |t0| tokio::time::Instant::now().duration_since(t0).as_millis() as u64)
 }
 
 #[derive(Serialize, Deserialize, Clone, Debug)]
@@ -120,6 +137,7 @@ fn digest(b: &[u8]) -> (u64, u64) {
 struct ScriptBody {
     size: BodySize,
     evs: std::collections::VecDeque<Ev>,
+    park: Option<Pin<Box<tokio::time::Sleep>>>,
 }
 
 impl MessageBody for ScriptBody {
@@ -129,8 +147,21 @@ impl MessageBody for ScriptBody {
     }
     fn poll_next(self: Pin<&mut Self>, cx: &mut Context<'_>) -> Poll<Option<Result<Bytes, Self::Error>>> {
         let this = self.get_mut();
+        if let Some(Ev::W) = this.evs.front() {
+            let t0 = T0.with(|t| t.get()).unwrap_or_else(tokio::time::Instant::now);
+            let sl = this.park.get_or_insert_with(|| Box::pin(tokio::time::sleep_until(t0 + Duration::from_secs(PARK_SECS))));
+            if std::future::Future::poll(sl.as_mut(), cx).is_pending() {
+                return Poll::Pending;
+            }
+            this.park = None;
+            this.evs.pop_front();
+            // woken by the clock: the `.await` polls again
+            cx.waker().wake_by_ref();
+            return Poll::Pending;
+        }
         match this.evs.pop_front() {
             None => Poll::Ready(None),
+            Some(Ev::W) => unreachable!(),
             Some(Ev::P) => {
                 cx.waker().wake_by_ref();
                 Poll::Pending
@@ -151,7 +182,7 @@ fn build_response(st: &St) -> Response<ScriptBody> {
         "none" => BodySize::None,
         _ => BodySize::Stream,
     };
-    let body = ScriptBody { size, evs: st.body.iter().cloned().collect() };
+    let body = ScriptBody { size, evs: st.body.iter().cloned().collect(), park: None };
     let mut res = Response::with_body(StatusCode::from_u16(st.status).unwrap(), body);
     for (k, v) in &st.hdrs {
         res.headers_mut().append(
@@ -189,6 +220,8 @@ struct Obs {
     data: Vec<u8>,
     end: End,
     up: UpObs,
+    /// virtual milliseconds since the start of the scenario at which the client was done with the stream
+    done_ms: Option<u64>,
 }
 
 /// what the handler saw on `h2::Payload` (one entry per `poll_next` item)
@@ -201,7 +234,12 @@ struct UpObs {
     end: &'static str,
 }
 
-async fn drive(i: usize, mut sr: h2::client::SendRequest<Bytes>, st: St, case: Rc<Case>, obs: Rc<RefCell<Vec<Obs>>>) {
+async fn drive(i: usize, sr: h2::client::SendRequest<Bytes>, st: St, case: Rc<Case>, obs: Rc<RefCell<Vec<Obs>>>) {
+    drive_inner(i, sr, st, case, obs.clone()).await;
+    obs.borrow_mut()[i].done_ms = Some(virtual_now_ms());
+}
+
+async fn drive_inner(i: usize, mut sr: h2::client::SendRequest<Bytes>, st: St, case: Rc<Case>, obs: Rc<RefCell<Vec<Obs>>>) {
     let req = http::Request::builder()
         .method(if st.up.is_some() { http::Method::POST } else if st.head { http::Method::HEAD } else { http::Method::GET })
         .uri(format!("http://h/{i}"))
@@ -322,15 +360,32 @@ async fn drive(i: usize, mut sr: h2::client::SendRequest<Bytes>, st: St, case: R
     }
 }
 
+/// real-time guard around one scenario: under the paused clock a hang is seen when every task is
+/// idle, but a task that spins without ever yielding (a send loop that keeps getting zero capacity)
+/// never lets the clock move. Such a scenario is abandoned after 10 real seconds and reported as a
+/// hang of every stream (the worker thread is left behind).
 fn run_impl(case: &Case) -> Vec<Obs> {
+    let (tx, rx) = std::sync::mpsc::channel();
+    let c = case.clone();
+    std::thread::spawn(move || {
+        let _ = tx.send(run_impl_inner(&c));
+    });
+    match rx.recv_timeout(Duration::from_secs(10)) {
+        Ok(o) => o,
+        Err(_) => vec![Obs { head: None, frames: vec![], data: vec![], end: End::Running, up: UpObs { end: "open", ..Default::default() }, done_ms: None }; case.streams.len()],
+    }
+}
+
+fn run_impl_inner(case: &Case) -> Vec<Obs> {
     let case = Rc::new(case.clone());
     let n = case.streams.len();
-    let obs = Rc::new(RefCell::new(vec![Obs { head: None, frames: vec![], data: vec![], end: End::Running, up: UpObs { end: "open", ..Default::default() } }; n]));
+    let obs = Rc::new(RefCell::new(vec![Obs { head: None, frames: vec![], data: vec![], end: End::Running, up: UpObs { end: "open", ..Default::default() }, done_ms: None }; n]));
     let obs3 = obs.clone();
     let obs2 = obs.clone();
     let case2 = case.clone();
     vh::exec::run_local(async move {
         tokio::time::pause();
+        T0.with(|t| t.set(Some(tokio::time::Instant::now())));
         let (cio, sio) = tokio::io::duplex(case2.pipe.max(1));
         let scripts = case2.clone();
         let mut builder = HttpService::build().keep_alive(KeepAlive::Disabled).client_request_timeout(Duration::ZERO);
@@ -430,7 +485,7 @@ fn script_prefix_to_error(st: &St) -> (Vec<u8>, bool) {
     for e in &st.body {
         match e {
             Ev::C { len, fill } => out.extend(chunk_bytes(*len, *fill)),
-            Ev::P => {}
+            Ev::P | Ev::W => {}
             Ev::E => return (out, true),
         }
     }
@@ -499,6 +554,16 @@ fn oracle(case: &Case, obs: &[Obs]) -> Result<(), String> {
         if o.end == End::Running {
             return Err(format!("stream {i}: hang (no completion within the time-out); received {} of {} bytes", o.data.len(), script.len()));
         }
+        // stream independence, the stall clause: a stream whose own handler never idles must be done
+        // while its neighbours' handlers are still parked (they wake at PARK_SECS of virtual time,
+        // i.e. only once nothing else in the scenario can move)
+        let parks = st.body.iter().any(|e| *e == Ev::W);
+        if !parks && o.done_ms.map_or(true, |t| t >= STALL_SECS * 1000) {
+            return Err(format!(
+                "stream {i}: blocked behind idle streams: done at virtual {:?} ms (idle handlers wake at {} s); received {} of {} bytes",
+                o.done_ms, PARK_SECS, o.data.len(), script.len()
+            ));
+        }
         let h = match &o.head {
             Some(h) => h,
             None => return Err(format!("stream {i}: no response head ({:?})", o.end)),
@@ -520,8 +585,11 @@ fn oracle(case: &Case, obs: &[Obs]) -> Result<(), String> {
             if h.cl != vec![script_total(st).to_string()] {
                 return Err(format!("stream {i}: content-length {:?}, body is Sized({})", h.cl, script_total(st)));
             }
-        } else if !user_cl && !h.cl.is_empty() {
-            return Err(format!("stream {i}: content-length {:?} sent for a {} body with status {}", h.cl, st.size, st.status));
+        } else if !h.cl.is_empty() && !(user_cl && st.size == "stream") {
+            // a None body, or a Sized body under a status that allows no content: no content-length may
+            // reach the wire, whatever the handler put into its header map (only next to a Stream body
+            // is the handler's own content-length copied through: its claim, see `lying_cl`)
+            return Err(format!("stream {i}: content-length {:?} sent for a {} body with status {} (handler-supplied: {})", h.cl, st.size, st.status, user_cl));
         }
         if !expect_body {
             if !o.data.is_empty() || !o.frames.is_empty() {
@@ -529,6 +597,15 @@ fn oracle(case: &Case, obs: &[Obs]) -> Result<(), String> {
             }
             if !h.eos {
                 return Err(format!("stream {i}: head without END_STREAM for a body-less response"));
+            }
+            // "a content-length that matches when one is sent": zero DATA bytes follow this head
+            // (HEAD and 304 describe the selected representation instead, RFC 9110 8.6)
+            if !st.head && st.status != 304 && !(user_cl && st.size == "stream") {
+                if let Some(cl) = h.cl.first() {
+                    if cl.parse::<usize>().ok() != Some(0) {
+                        return Err(format!("stream {i}: content-length {cl} on a response that ends with its head (0 bytes)"));
+                    }
+                }
             }
             continue;
         }
@@ -589,7 +666,7 @@ fn computed_grants(case: &Case, st: &St) -> Vec<usize> {
                     avail -= cap;
                 }
             }
-            Ev::P => {}
+            Ev::P | Ev::W => {}
             Ev::E => break,
         }
     }
@@ -599,7 +676,7 @@ fn computed_grants(case: &Case, st: &St) -> Vec<usize> {
 fn coq_ev(e: &Ev) -> String {
     match e {
         Ev::C { len, fill } => format!("BC {} {}", len, fill),
-        Ev::P => "BP".into(),
+        Ev::P | Ev::W => "BP".into(),
         Ev::E => "BE".into(),
     }
 }
@@ -782,7 +859,19 @@ fn gen_stream(rng: &mut Rng, w: usize, malformed: bool, small: bool, single: boo
         up: None,
     };
     if malformed {
-        match rng.below(5) {
+        match rng.below(6) {
+            5 => {
+                // a handler-supplied content-length next to a body that ends with the head (None, or
+                // anything under 204): it must not reach the wire
+                st.hdrs.push(("content-length".to_string(), format!("{}", rng.pick(&[5usize, 77, 1]))));
+                st.head = false;
+                if rng.chance(2, 3) {
+                    st.size = "none".into();
+                } else {
+                    st.status = 204;
+                    st.size = rng.pick(&["sized", "none"]).to_string();
+                }
+            }
             0 => {
                 // body fails part-way
                 let at = rng.below(st.body.len() as u64 + 1) as usize;
@@ -905,6 +994,28 @@ fn gen_case(rng: &mut Rng) -> Case {
     Case { window, release, pipe: *rng.pick(&[1usize << 20, 1 << 20, 65_536, 4096, 64, 17]), swindow: None, streams }
 }
 
+/// k >= 4 streaming responses whose handlers sent one small chunk and then idle, and one or two
+/// ordinary bodies behind them on the same connection, default 65 535 connection window: the idle
+/// streams must not sit on connection window they do not use
+fn gen_idle_case(rng: &mut Rng) -> Case {
+    let k = rng.range(4, 7) as usize;
+    let mut streams = vec![];
+    for _ in 0..k {
+        let mut body = vec![Ev::C { len: *rng.pick(&[1usize, 10, 100, 1000]), fill: rng.below(251) as u8 }, Ev::W];
+        if rng.chance(1, 2) {
+            body.push(Ev::C { len: rng.range(1, 50) as usize, fill: rng.below(251) as u8 });
+        }
+        streams.push(St { head: false, status: 200, size: rng.pick(&["stream", "stream", "sized"]).to_string(), body, hdrs: vec![], reset_after: None, up: None });
+    }
+    for _ in 0..rng.range(1, 2) {
+        let total = rng.range(1_000, 6_000) as usize;
+        let first = rng.range(1, total as u64 - 1) as usize;
+        let body = vec![Ev::C { len: first, fill: rng.below(251) as u8 }, Ev::C { len: total - first, fill: rng.below(251) as u8 }];
+        streams.push(St { head: false, status: 200, size: rng.pick(&["stream", "sized"]).to_string(), body, hdrs: vec![], reset_after: None, up: None });
+    }
+    Case { window: 65_535, release: "each".into(), pipe: 1 << 20, swindow: None, streams }
+}
+
 /// is the body polled at all (as the code decides it)
 fn streamed(st: &St) -> bool {
     !st.head && !matches!(st.status, 204 | 100 | 102) && (st.size == "stream" || (st.size == "sized" && script_total(st) > 0) || st.status == 101)
@@ -941,6 +1052,10 @@ fn emit_case(em: &mut Emitter, id: String, case: Case) {
         format!("pipe:{}", case.pipe),
         format!("bytes:{}", match total { 0 => "0", 1..=99 => "1-99", 100..=9999 => "100-9999", _ => "10000+" }),
     ];
+    let idle = case.streams.iter().filter(|st| st.body.contains(&Ev::W)).count();
+    if idle > 0 {
+        tags.push(format!("idle-streams:{}", if idle >= 4 { "4+" } else { "1-3" }));
+    }
     let w = case.window as usize;
     for (st, o) in case.streams.iter().zip(&obs) {
         tags.push(format!("status:{}", st.status));
@@ -956,6 +1071,7 @@ fn emit_case(em: &mut Emitter, id: String, case: Case) {
                     if *len == 0 { "0" } else if *len == 1 { "1" } else if *len + 1 == w { "w-1" } else if *len == w { "w" } else if *len == w + 1 { "w+1" } else if *len == 2 * w { "2w" } else if *len > w { ">w" } else { "<w" }
                 )),
                 Ev::P => tags.push("body:pending".into()),
+                Ev::W => tags.push("body:parked".into()),
                 Ev::E => tags.push("body:error".into()),
             }
         }
@@ -1016,7 +1132,13 @@ fn main() {
         let n = args.n.unwrap_or(if args.thorough() { 1500 } else { 160 });
         for i in 0..n {
             let mut r = rng.fork();
-            let case = if i % 4 == 3 { gen_upload_case(&mut r, args.thorough()) } else { gen_case(&mut r) };
+            let case = if i % 4 == 3 {
+                gen_upload_case(&mut r, args.thorough())
+            } else if i % 16 == 5 {
+                gen_idle_case(&mut r)
+            } else {
+                gen_case(&mut r)
+            };
             emit_case(&mut em, format!("gen-{i}"), case);
         }
     }
